@@ -33,3 +33,44 @@ Definition c05_check (c : c05case) : bool :=
       bytes_eqb (printed_text p) printed
       && option_eqb qname_eqb (resolve_printed st pkg ctx p) resolved
   end.
+
+(* ---- option values: the real option printer's text, tokenised by the harness, against print_raw /
+        parse_raw on the value tree the printer walked (optionreflect.OptionField) *)
+Definition token_eqb (a b : token) : bool :=
+  match a, b with
+  | TIdent x, TIdent y | TLit x, TLit y => bytes_eqb x y
+  | TColon, TColon | TLBrace, TLBrace | TRBrace, TRBrace | TLBrack, TLBrack | TRBrack, TRBrack | TComma, TComma => true
+  | _, _ => false
+  end.
+
+Fixpoint rawval_eqb (a b : rawval) {struct a} : bool :=
+  match a, b with
+  | RScalar x, RScalar y => token_eqb x y
+  | RMsg fa, RMsg fb =>
+      (fix go (l : list (ident * rawval)) (m : list (ident * rawval)) : bool :=
+         match l, m with
+         | [], [] => true
+         | (k, x) :: r, (k', y) :: s => bytes_eqb k k' && rawval_eqb x y && go r s
+         | _, _ => false
+         end) fa fb
+  | RList la, RList lb =>
+      (fix go (l : list rawval) (m : list rawval) : bool :=
+         match l, m with
+         | [], [] => true
+         | x :: r, y :: s => rawval_eqb x y && go r s
+         | _, _ => false
+         end) la lb
+  | _, _ => false
+  end.
+
+Inductive c05opt := COpt (r : rawval) (toks : list token).
+
+Definition c05_opt_check (c : c05opt) : bool :=
+  match c with
+  | COpt r toks =>
+      list_eqb token_eqb (print_raw r) toks
+      && match parse_raw (S (length toks)) toks with
+         | Some (r', []) => rawval_eqb r r'
+         | _ => false
+         end
+  end.
